@@ -6,6 +6,14 @@ props = [json.loads(l) for l in open(os.path.join(V, "properties.jsonl"))]
 
 EVAL_NOTE = "trusted: TLC; the renderer's canonical layout and path->line map; H2 hook events (emitted after each VM state change in the single evaluator goroutine); program families are bounded (sizes in the evidence)"
 CHECKS = {
+ "C03": dict(
+   technique="TLA+ grammar spec (ZnGrammar: prescribed tree, canonical token sequence, layout-option machine) model-checked by TLC; every TLC-emitted rendering parsed by the real parser and the dumped tree compared with the prescribed tree",
+   level="For ~75 (thorough ~550) programs covering every statement kind, expression form and program section TLC computes Tree(prog) (checked complete) and Tokens(prog) and the layout machine emits the canonical rendering, every rendering with exactly one deviation (synonymous spelling, ASCII punctuation, extra blank, /* */ comment, end-of-line // and 注： comments, blank line, comma before 且/或/得到, line breaks after 【 ， 、 { and before 】 }), all 6 indentation-unit x line-terminator combinations and simulated renderings with up to 5 deviations (quick ~16600 renderings): each is parsed by the real parser and its dumped tree must equal Tree(prog) - so all renderings of a program agree - and be complete.",
+   note="trusted: TLC; the nil-safe tree dumper and the piece->text table of the harness; layout freedom limited to the positions the manual exemplifies; operands braced (precedence is C01)", ref="5 C03"),
+ "C05": dict(
+   technique="TLA+ outcome automaton of the front end (ZnFront) model-checked by TLC, which also enumerates the input texts; token-level corruptions from the ZnGrammar layout machine; outcome records of the real parser + error printer validated against the automaton (TLC trace validation on a sample, a Python mirror of the same predicate on all records)",
+   level="Inputs: every text of length <= 3 over 36 character classes (incl. TAB/blank indentation mixes, lone CR, every bracket/quote/back-tick, control characters, NUL) and a seeded 1/30 (thorough: all 1.7M) of length 4; every single token deletion/duplication/swap of grammar-covering programs; every prefix of a sample of those mutants; the short texts also as input-variable text. Each runs in a worker process with a watchdog: exactly one outcome, a syntax error has code 20..27, 0 <= cursor <= length and a report that quotes a physical line of the source, an accepted tree is complete; hang, panic, non-syntax error and nil tree are not outcomes of the automaton. ~52000 records are validated by TLC against Trace_ZnFront, all ~120000 by the mirrored predicate.",
+   note="trusted: TLC; worker-process isolation; one character per class; TLC validates a sample only (JSON volume)", ref="5 C05"),
  "C20": dict(
    technique="TLA+ spec of the prefork master (ZnPrefork: one action per critical section, asynchronous spawn loops, intended design vs named deviation 'ascoded') exhaustively model-checked by TLC; TLC counterexamples and simulated behaviours replayed through H5 scheduling gates into the real master with real worker processes; every recorded H5 event log validated by TLC against Trace_ZnPrefork",
    level="TLC explores every interleaving of master, spawn-loop, worker and fault actions for small configurations (init <= max <= 3, thorough 4; batch 10 and 2; <= 3 requests, <= 1 crash/hang): live <= max, refCount = registered + reserved, live <= refCount <= max, a timeout changes no other worker (thorough: refill liveness under fairness). In the same run TLC refutes Bound for the original bookkeeping and its counterexample schedules, plus simulated behaviours of the intended design, are replayed into the real ZnPMServer.StartMaster (in-process) with real StartWorker child processes by holding and releasing cmd.Start and the three channel sends in schedule order; free-running randomized load with hung requests and crashing workers is run over 6 configurations. Every run is checked for live <= max (event log and /proc sampling), >= init alive once quiet, exactly-one own-token response per request, and its complete event log is accepted by the trace spec (action, refCount, table size and spawn-loop size bound at every event).",
